@@ -72,6 +72,9 @@ struct Plan {
     flush_rows: usize,
     faults: Vec<Fault>,
     strategy: Strategy,
+    /// the shards the writes map to are in the dual-write phase of a split: writes take
+    /// Ingester::write_with_split_awareness
+    dual_write: bool,
 }
 
 fn gen_plan(rng: &mut Rng, idx: u64, thorough_fault: Option<(u64, FaultMode)>) -> Plan {
@@ -119,7 +122,10 @@ fn gen_plan(rng: &mut Rng, idx: u64, thorough_fault: Option<(u64, FaultMode)>) -
         0..=5 => Strategy::Uniform,
         _ => Strategy::Pct { change_points: (0..3).map(|_| rng.below(80)).collect() },
     };
-    Plan { local_backend: rng.chance(1, 4), writers, flush_rows: 3 + rng.usize(6), faults, strategy }
+    let local_backend = rng.chance(1, 4);
+    let flush_rows = 3 + rng.usize(6);
+    let dual_write = rng.chance(1, 4);
+    Plan { local_backend, writers, flush_rows, faults, strategy, dual_write }
 }
 
 fn snapshot_wal(wal_dir: &str, root: &str, n: &mut u64) -> String {
@@ -253,6 +259,11 @@ fn boot(img: &Image, gated: Option<Rng>, root: &str, counter: &mut u64) -> BootR
         match fresh.list_chunks().await {
             Ok(chunks) => {
                 for c in chunks {
+                    if c.chunk_path.contains("shard=new-") {
+                        // a dual-write copy under a new shard: not read by queries while the split runs,
+                        // so it does not count as "the row is there"
+                        continue;
+                    }
                     match rows::read_chunk_ids(ctl.backing.as_ref(), &c.chunk_path).await {
                         Ok(v) => {
                             if v.len() as u64 != c.row_count {
@@ -341,6 +352,20 @@ fn one_execution(ctx: &Ctx, out: &mut Outcome, plan: Plan, mut rng: Rng, idx: u6
         } else {
             Arc::new(ObjectStoreMetadataClient::new(ctl.store("ing"), ObjectStoreMetadataConfig::default()))
         };
+        if plan2.dual_write {
+            // both shards the plan's metrics map to are put into the dual-write phase (set up before
+            // gating and faults start)
+            for metric in ["m0", "m1"] {
+                let key = cardinalsin::sharding::ShardKey::new(0, metric, clock::SIM_EPOCH_NS);
+                let shard_id = format!("shard-{:x}", u64::from_be_bytes(key.to_bytes()[0..8].try_into().unwrap_or([0u8; 8])));
+                let sp = (clock::SIM_EPOCH_NS - 1_500_000_000_000).to_be_bytes().to_vec();
+                let r1 = meta.start_split(&shard_id, vec![format!("new-a-{}", metric), format!("new-b-{}", metric)], sp).await;
+                let r2 = meta.update_split_progress(&shard_id, 0.2, cardinalsin::sharding::SplitPhase::DualWrite).await;
+                if let Err(e) = r1.and(r2) {
+                    return (vec![], String::new(), 0, false, vec![], Some(format!("start_split: {e}")));
+                }
+            }
+        }
         let mut ing = Ingester::new(ingester_config(&wal_dir2, plan2.flush_rows, 50), ctl.store("ing"), meta, storage_config(), MetricSchema::default_metrics());
         if let Err(e) = ing.ensure_wal().await {
             return (vec![], String::new(), 0, false, vec![], Some(e.to_string()));
@@ -437,6 +462,10 @@ fn one_execution(ctx: &Ctx, out: &mut Outcome, plan: Plan, mut rng: Rng, idx: u6
         return nreq;
     }
     out.count("executions", 1);
+    if plan.dual_write {
+        out.count("executions_in_dual_write_phase", 1);
+        out.count("dual_write_copies_uploaded", events_brief.iter().filter(|e| e["op"] == "PUT" && e["phase"] == "return" && e["path"].as_str().map(|p| p.contains("shard=new-")).unwrap_or(false)).count() as u64);
+    }
     out.count("store_and_catalog_requests", nreq);
     out.count("injected_faults_planned", plan.faults.len() as u64);
     let injected = events_brief.iter().filter(|e| e["result"].as_str().map(|s| s.starts_with("injected")).unwrap_or(false)).count() as u64;
@@ -460,6 +489,7 @@ fn one_execution(ctx: &Ctx, out: &mut Outcome, plan: Plan, mut rng: Rng, idx: u6
     let plan_json = json!({
         "backend": if plan.local_backend { "local" } else { "object-store" },
         "flush_row_count": plan.flush_rows,
+        "dual_write": plan.dual_write,
         "writers": plan.writers.iter().map(|w| w.iter().map(|(k, r, t)| format!("{:?} ids {:?} after {}ms", k, r.iter().map(|x| x.id).collect::<Vec<_>>(), t)).collect::<Vec<_>>()).collect::<Vec<_>>(),
         "faults": plan.faults.iter().map(|f| format!("request #{} {:?}", f.index, f.mode)).collect::<Vec<_>>(),
     });
